@@ -388,87 +388,9 @@ func genRuleTables(ru *pkg) {
 	emit("RuleTables", &b)
 }
 
-// genEventTypes turns the switch of GetAuditEventType into an ordered list of
-// (lo, hi, category) ranges; any case of another shape is a translator failure.
+// genEventTypes: see eventtypes.go.
 func genEventTypes(co, au *pkg) {
-	var fn *ast.FuncDecl
-	for _, f := range co.files {
-		for _, d := range f.Decls {
-			if fd, ok := d.(*ast.FuncDecl); ok && fd.Name.Name == "GetAuditEventType" {
-				fn = fd
-			}
-		}
-	}
-	if fn == nil {
-		fatal("GetAuditEventType not found")
-	}
-	param := fn.Type.Params.List[0].Names[0].Name
-	var sw *ast.SwitchStmt
-	for _, st := range fn.Body.List {
-		if s, ok := st.(*ast.SwitchStmt); ok {
-			sw = s
-		}
-	}
-	if sw == nil || sw.Tag != nil {
-		fatal("GetAuditEventType: expected a tagless switch")
-	}
-	isParam := func(e ast.Expr) bool { id, ok := e.(*ast.Ident); return ok && id.Name == param }
-	cval := func(e ast.Expr) int64 {
-		v, ok := co.exprInt(e)
-		if !ok {
-			fatal("GetAuditEventType: non-constant bound at %s", co.fset.Position(e.Pos()))
-		}
-		return v
-	}
-	var items []string
-	def := int64(-1)
-	for _, cc := range sw.Body.List {
-		c := cc.(*ast.CaseClause)
-		if len(c.Body) != 1 {
-			fatal("GetAuditEventType: case body of unexpected shape")
-		}
-		ret, ok := c.Body[0].(*ast.ReturnStmt)
-		if !ok || len(ret.Results) != 1 {
-			fatal("GetAuditEventType: case body is not a single return")
-		}
-		cat := cval(ret.Results[0])
-		if c.List == nil {
-			def = cat
-			continue
-		}
-		for _, e := range c.List {
-			be, ok := e.(*ast.BinaryExpr)
-			if !ok {
-				fatal("GetAuditEventType: unexpected case expression at %s", co.fset.Position(e.Pos()))
-			}
-			switch be.Op {
-			case token.EQL:
-				if !isParam(be.X) {
-					fatal("GetAuditEventType: unexpected == at %s", co.fset.Position(e.Pos()))
-				}
-				v := cval(be.Y)
-				items = append(items, fmt.Sprintf("(%d, %d, %d)", v, v, cat))
-			case token.LAND:
-				l, ok1 := be.X.(*ast.BinaryExpr)
-				r, ok2 := be.Y.(*ast.BinaryExpr)
-				if !ok1 || !ok2 || l.Op != token.GEQ || r.Op != token.LEQ || !isParam(l.X) || !isParam(r.X) {
-					fatal("GetAuditEventType: unexpected range shape at %s", co.fset.Position(e.Pos()))
-				}
-				items = append(items, fmt.Sprintf("(%d, %d, %d)", cval(l.Y), cval(r.Y), cat))
-			default:
-				fatal("GetAuditEventType: unexpected operator at %s", co.fset.Position(e.Pos()))
-			}
-		}
-	}
-	if def < 0 {
-		fatal("GetAuditEventType: no default case")
-	}
-	var b bytes.Buffer
-	b.WriteString("namespace LA.Gen.EventTypes\n")
-	chunked(&b, "ranges", "Nat × Nat × Nat", items)
-	fmt.Fprintf(&b, "def defaultCategory : Nat := %d\n", def)
-	b.WriteString("end LA.Gen.EventTypes\n")
-	emit("EventTypes", &b)
+	emitEventTypes("EventTypes", extractEventTypes(co))
 }
 
 // genNormNames extracts from normalizations.yaml what C20 needs: per normalisation
